@@ -70,7 +70,8 @@ def make_input(r, kind, solid_only=False, with_cpal=False):
     from vf.checks import c13
 
     npal = r.choice([1, 2, 3])
-    font, shapes, (asc, desc) = c13.mkfont(r, npal)
+    zero_adv = r.random() < 0.35
+    font, shapes, (asc, desc) = c13.mkfont(r, npal, zero_advance=zero_adv)
     stats = {}
     gA = {"Format": PF.PaintColrLayers, "Layers": [c13.graph(r, shapes, 2, False, PF, stats) for _ in range(r.randint(1, 2))]}
     gB = {"Format": PF.PaintColrLayers, "Layers": [c13.graph(r, shapes, 2, True, PF, stats) for _ in range(r.randint(1, 2))]}
@@ -83,7 +84,7 @@ def make_input(r, kind, solid_only=False, with_cpal=False):
     addOpenTypeFeaturesFromString(font, fea)
     bio = io.BytesIO()
     font.save(bio)
-    return bio.getvalue(), {"kind": "thirdparty-colr1", "palettes": npal, "sequences": [[0x41], [0x42]]}
+    return bio.getvalue(), {"kind": "thirdparty-colr1", "palettes": npal, "zero_advance_colour_glyph": zero_adv, "sequences": [[0x41], [0x42]]}
 
 
 def name_keyed_facts(font):
